@@ -197,6 +197,29 @@ pub fn known_for_build(v: &Viol) -> Option<&'static str> {
             }
         }
     }
+    // Legacy integer mode (dialects before cl23.1): optimising passes evaluate constants through
+    // integers, which drops redundant leading bytes (0x00 -> (), 0x0007 -> 7).  Excused only when
+    // (1) the dialect has no int_fix, (2) some optimisation switch is on, (3) a value came back
+    // that equals the expected one once every atom is reduced to its minimal integer spelling,
+    // and (4) the build of the same dialect with every switch off returns the expected value.
+    if matches!(d, "cl21" | "strict-cl21" | "cl22" | "cl23") && v.sig.starts_with("wrong-value") && (opts.contains("opt=1") || opts.contains("fe=1") || opts.contains("post=1")) {
+        fn norm(v: &V) -> V {
+            match v {
+                V::A(b) => V::A(chialisp::util::u8_from_number(chialisp::util::number_from_u8(b))),
+                V::P(a, b) => V::P(std::rc::Rc::new(norm(a)), std::rc::Rc::new(norm(b))),
+            }
+        }
+        let sigil = Dialect::parse(d)?.sigil();
+        let args = v.case.get("args_hex").and_then(|h| h.as_str()).and_then(|h| hex::decode(h).ok()).and_then(|b| sut::consensus_deserialize(&b).ok())?;
+        let want = v.case.get("expected_hex").and_then(|h| h.as_str()).and_then(|h| hex::decode(h).ok()).and_then(|b| sut::consensus_deserialize(&b).ok())?;
+        let got = sut::run_consensus(&code, &args, RUN_COST).ok()?;
+        if got != want && norm(&got) == norm(&want) {
+            let unopt = sut::compile_modern(src, sigil, ModernOpts { optimize: false, frontend_opt: false, post_opt: false }, "*verif*.clsp", &[]).ok()?;
+            if sut::run_consensus(&unopt.code, &args, RUN_COST).ok().as_ref() == Some(&want) {
+                return Some("legacy-int-mode-optimisation-drops-redundant-leading-bytes");
+            }
+        }
+    }
     None
 }
 
